@@ -292,8 +292,28 @@ def run(ctx):
                 continue
             # next validation macro after this call
             w = fn.cfg.where()
-            vals = [n for n in fn.body.walk() if n.k == "IfStmt" and (n.macro or "").startswith("VALIDATE_COUNT")
-                    and mentions([x for x in n.c if x is not None][0])]
+            # a validation is recognised by what it does, not by the macro it comes from: an if with an
+            # exit whose condition rejects `count < 0` and `count > limit`
+            vals = []
+            for n in fn.body.walk():
+                if n.k != "IfStmt":
+                    continue
+                kids_ = [x for x in n.c if x is not None]
+                if not mentions(kids_[0]) or not any(r.k == "ReturnStmt" for r in kids_[1].walk()):
+                    continue
+                lows = highs = False
+                for lf in kids_[0].walk():
+                    if lf.k == "BinaryOperator" and lf.op in ("<", ">", "<=", ">=") and mentions(lf):
+                        l_, r_ = lf.c[0].strip_casts(), lf.c[1].strip_casts()
+                        cnt_left = l_.k == "DeclRefExpr" and l_.get("d") == cd
+                        opn = lf.op if cnt_left else {"<": ">", ">": "<", "<=": ">=", ">=": "<="}[lf.op]
+                        other = lf.c[1] if cnt_left else lf.c[0]
+                        if opn == "<" and other.cv == 0 or opn == "<=" and other.cv == -1:
+                            lows = True
+                        if opn in (">", ">="):
+                            highs = True
+                if lows and highs:
+                    vals.append(n)
             for u in uses + [_first_cfg(fn, l.c[2]) for l in loops]:
                 if u is None:
                     continue
